@@ -33,7 +33,7 @@ LMAX = tr.LMAX
 # by scalarproductcoeff, which keep the input dtype.  For a scalar-valued expansion with REAL coefficient arrays and at least
 # two series terms numpy refuses the in-place cast and inv() raises UFuncTypeError (witness corpus/C17/known-real-scalar-inverse.json).
 # With the flag set, scalar-valued inverse cases are built with complex arrays (same numbers).
-EXCLUDE_REAL_SCALAR_INVERSE = True
+EXCLUDE_REAL_SCALAR_INVERSE = False  # R29 repaired in /repo (50df220)
 _EXCLUDED = collections.Counter()
 
 SHAPES = [(), (), (1,), (2,), (1, 1), (2, 2), (2, 2), (3, 3), (2, 3)]
